@@ -391,3 +391,45 @@ Example c19_nonvacuous :
         OData [16;17;18;19]; ONone; OData [11;12;13;14;15;16;17;18;19]; OData []]
   /\ run_maxheld res (fun _ _ => res) 4 2 init ops = 2.
 Proof. vm_compute. repeat split. Qed.
+
+(* ---- refutation witnesses for the code before the repairs ---------------- *)
+Definition res10 : list Z := [10;11;12;13;14;15;16;17;18;19].
+
+(* keep_chunks = 1: reading chunk 0 and then any other chunk raised KeyError *)
+Lemma old_keep1_keyerror :
+  exists ops, pos_ok res10 0 ops = true
+    /\ run_old res10 (fun _ _ => []) 4 1 init ops <> spec_run res10 0 ops
+    /\ In OKeyError (run_old res10 (fun _ _ => []) 4 1 init ops).
+Proof.
+  exists [Read 2; Seek 0 5; Read 2]. vm_compute.
+  split; [reflexivity|]. split; [discriminate|]. right; right; left; reflexivity.
+Qed.
+
+(* read() / read(-1) returned b"" instead of the remaining bytes *)
+Lemma old_read_all_empty :
+  exists ops, pos_ok res10 0 ops = true
+    /\ run_old res10 (fun _ _ => []) 4 2 init ops = [ONone; OData []]
+    /\ spec_run res10 0 ops = [ONone; OData [17; 18; 19]].
+Proof. exists [Seek 0 7; Read (-1)]. vm_compute. repeat split. Qed.
+
+(* a read crossing the end of the resource appended the server's reply to an
+   unsatisfiable range (here: a server that answers with the whole body) *)
+Lemma old_read_across_eof_junk :
+  exists ops, pos_ok res10 0 ops = true
+    /\ run_old res10 (fun _ _ => res10) 4 2 init ops
+       = [ONone; OData [15; 16; 17; 18; 19; 10]]
+    /\ spec_run res10 0 ops = [ONone; OData [15; 16; 17; 18; 19]].
+Proof. exists [Seek 0 5; Read 8]. vm_compute. repeat split. Qed.
+
+(* read(0) moved the position to the end of the resource *)
+Lemma old_read0_moves :
+  exists ops, pos_ok res10 0 ops = true
+    /\ run_old res10 (fun _ _ => []) 4 2 init ops = [OData []; OPos 10]
+    /\ spec_run res10 0 ops = [OData []; OPos 0].
+Proof. exists [Read 0; Tell]. vm_compute. repeat split. Qed.
+
+(* keep_chunks = 0 is outside the theorem's hypothesis for a reason: the chunk
+   being returned has to be held *)
+Lemma keep0_bound_fails :
+  exists ops, run_maxheld res10 (fun _ _ => []) 4 0 init ops > 0.
+Proof. exists [Read 1]. vm_compute. reflexivity. Qed.
